@@ -158,6 +158,12 @@ impl SupervisionTree {
         self.children.lock().unwrap().is_none()
     }
 
+    /// Verification hook: the child set has not been closed by `take_children`.
+    #[cfg(feature = "verif")]
+    pub(crate) fn verif_children_open(&self) -> bool {
+        self.children.lock().unwrap().is_some()
+    }
+
     /// Try and retrieve the set supervisor
     pub(crate) fn try_get_supervisor(&self) -> Option<ActorCell> {
         self.supervisor.lock().unwrap().clone()
